@@ -65,6 +65,8 @@ var pktDecoderNames = []string{"ethernet", "ethernet:new", "vlan", "arp", "ipv4"
 // the structurally rich decoders get more of the case list
 var c08Schedule = []string{"ethernet", "ipv6", "ipv4", "packet_in", "hbh", "dhcp", "igmp3_report", "ethernet", "ipv6", "packet_in", "routing", "dhcp_options", "igmp3_query", "igmp3_record", "lldp", "ip6opt"}
 
+var c08Recorded int // inputs whose hash this worker process has recorded
+
 func init() {
 	fw.Register(&fw.Prop{
 		ID:       "C08",
@@ -138,8 +140,8 @@ func (t *c08Run) run(class string, in []byte) bool {
 	c := t.c
 	var err error
 	v := fw.Guard(len(in), func() { err = t.f(in) })
-	if t.recorded < 150000 {
-		t.recorded++
+	if c08Recorded < 150000 {
+		c08Recorded++
 		c.Distinct(prng.Hash64(append([]byte(t.dec+"|"), in...)), t.hasBase && class != "valid")
 	} else {
 		c.Evaluations(1)
